@@ -1,1 +1,76 @@
 // verification harness (compiled into ntpd/src/daemon/server.rs under cfg(all(test, pendulum_project_ntpd_rs_verif)))
+// Slice "Stats" of spec/MC_Server.tla (C21): the daemon's counter mapping ServerStats::register as a pure function.
+// Every (nts, reason, response) triple enumerated by TLC is registered on a fresh ServerStats and the counters
+// that moved are compared with the specification's table.
+#![allow(clippy::all, dead_code)]
+
+use super::*;
+use serde_json::{Value, json};
+
+#[path = "/verif/harness/common/util.rs"]
+mod util;
+
+fn moved(s: &ServerStats) -> Vec<String> {
+    let all: [(&str, &Counter); 11] = [
+        ("received", &s.received_packets),
+        ("accepted", &s.accepted_packets),
+        ("denied", &s.denied_packets),
+        ("ignored", &s.ignored_packets),
+        ("rate_limited", &s.rate_limited_packets),
+        ("send_errors", &s.response_send_errors),
+        ("nts_received", &s.nts_received_packets),
+        ("nts_accepted", &s.nts_accepted_packets),
+        ("nts_denied", &s.nts_denied_packets),
+        ("nts_rate_limited", &s.nts_rate_limited_packets),
+        ("nts_nak", &s.nts_nak_packets),
+    ];
+    let mut v = vec![];
+    for (n, c) in all {
+        match c.get() {
+            0 => {}
+            1 => v.push(n.to_string()),
+            k => v.push(format!("{n}x{k}")),
+        }
+    }
+    v.sort();
+    v
+}
+
+#[test]
+fn verif_server_stats() {
+    let job = util::job();
+    let walks = util::read_ndjson(job["input"].as_str().unwrap());
+    let mut out = util::NdjsonOut::create(job["output"].as_str().unwrap());
+    for w in walks {
+        let mut fail = Value::Null;
+        let mut run = 0;
+        for (n, st) in w["walk"].as_array().unwrap().iter().enumerate() {
+            let a = &st["act"];
+            let reason = match a["reason"].as_str().unwrap() {
+                "RateLimit" => ServerReason::RateLimit,
+                "ParseError" => ServerReason::ParseError,
+                "InvalidCrypto" => ServerReason::InvalidCrypto,
+                "InternalError" => ServerReason::InternalError,
+                _ => ServerReason::Policy,
+            };
+            let resp = match a["resp"].as_str().unwrap() {
+                "NTSNak" => ServerResponse::NTSNak,
+                "Deny" => ServerResponse::Deny,
+                "Ignore" => ServerResponse::Ignore,
+                _ => ServerResponse::ProvideTime,
+            };
+            let mut s = ServerStats::default();
+            let r = util::catch(|| s.register(a["ver"].as_u64().unwrap() as u8, a["nts"].as_bool().unwrap(), reason, resp));
+            run = n + 1;
+            let got = moved(&s);
+            let mut want: Vec<String> = st["out"]["counters"].as_array().unwrap().iter().map(|x| x.as_str().unwrap().to_string()).collect();
+            want.sort();
+            if r.is_err() || got != want {
+                fail = json!({"step": n, "fields": if r.is_err() { vec!["panic"] } else { vec!["counters"] }, "observed": {"counters": got}, "panic": r.err()});
+                break;
+            }
+        }
+        out.put(&json!({"id": w["id"], "steps_run": run, "fail": fail}));
+    }
+    out.finish();
+}
